@@ -44,6 +44,13 @@ public:
             throw_error("can't open file: `{}`", path);
         }
         output_stream << data;
+        // buffered data reaches the file on close, that's where ENOSPC/EIO
+        // show up
+        output_stream.close();
+        if(!output_stream)
+        {
+            throw_error("can't write file: `{}`", path);
+        }
     }
 
     void create_directories(const std::filesystem::path& path) override
